@@ -160,18 +160,30 @@ impl<B: AsRef<[usize]> + BitLength> Rank9<B, Box<[BlockCounters]>> {
 
         let mut num_ones = 0;
 
+        // The bits of the last word beyond the length of the bit vector are
+        // arbitrary (e.g., after a pop or a truncation) and must not be counted.
+        let residual = num_bits % usize::BITS as usize;
+        let word = |i: usize| {
+            let word = bits.as_ref()[i];
+            if i + 1 == num_words && residual != 0 {
+                word & ((1 << residual) - 1)
+            } else {
+                word
+            }
+        };
+
         for i in (0..num_words).step_by(Self::WORDS_PER_BLOCK) {
             let mut count = BlockCounters {
                 absolute: num_ones,
                 relative: 0,
             };
-            num_ones += bits.as_ref()[i].count_ones() as usize;
+            num_ones += word(i).count_ones() as usize;
 
             for j in 1..8 {
                 let rel_count = num_ones - count.absolute;
                 count.set_rel(j, rel_count);
                 if i + j < num_words {
-                    num_ones += bits.as_ref()[i + j].count_ones() as usize;
+                    num_ones += word(i + j).count_ones() as usize;
                 }
             }
 
